@@ -119,6 +119,11 @@ func ECVRFProve(sk PrivateKey, m []byte) (pi VRFProve, err error) {
  *
  */
 func ECVRFVerify(pk PublicKey, pi VRFProve, m []byte) (bool, error) {
+	// a proof is gamma || c || s, exactly ProveSize bytes (shorter only because the header's big
+	// integer drops leading zero bytes); bytes after the 80th would be ignored by decodeProof
+	if len(pi) > ProveSize {
+		return false, ErrDecodeError
+	}
 	pi = tryZeroPadding(pi)
 	gamma, cScalar, sScalar, err := decodeProof(pi)
 	if err != nil {
